@@ -6,7 +6,7 @@
    release).  All statements hold for every plan and every schedule, by induction over the schedule. *)
 From Coq Require Import List Arith Bool.
 Import ListNotations.
-From PySM Require Import Impl.Conc Impl.ConcNested Proofs.ConcProofs Proofs.ConcNestedProofs Impl.ConcFail Proofs.ConcFailProofs.
+From PySM Require Import Impl.Conc Impl.ConcNested Proofs.ConcProofs Proofs.ConcNestedProofs Impl.ConcFail Proofs.ConcFailProofs Proofs.ConcFailOrder.
 
 (* the callback sequences of different events never overlap: the log is a sequence of complete
    Begin/End blocks, plus at most one block still open *)
@@ -115,6 +115,24 @@ Theorem C06_mutual_exclusion_with_failures :
 Proof. exact mutual_exclusion_with_failures. Qed.
 Print Assumptions C06_mutual_exclusion_with_failures.
 
+(* per sender, with failing callbacks: the events begun, in the order they were begun, are a subsequence of the
+   sender's plan (some may have been dropped when a callback failed and the queue was cleared - C04 - but none is
+   invented or reordered), and begun ++ queued ++ still-to-send never holds an event twice.  For every failing
+   set, plan and schedule, before and after fix 894918f ([fixed]) *)
+Theorem C06_sender_order_with_failures :
+  forall fails fixed plan sched t,
+    subseq (ConcProofs.of_sender t (begun (fw_log (frun fails fixed sched (finit plan))))) (sends t (plan t)).
+Proof. exact sender_order_with_failures. Qed.
+Print Assumptions C06_sender_order_with_failures.
+
+Theorem C06_at_most_once_with_failures :
+  forall fails fixed plan sched t,
+    let w := frun fails fixed sched (finit plan) in
+    NoDup (ConcProofs.of_sender t (begun (fw_log w)) ++ ConcProofs.of_sender t (fw_queue w)
+           ++ f_todo (fw_threads w t)).
+Proof. exact processed_at_most_once_with_failures. Qed.
+Print Assumptions C06_at_most_once_with_failures.
+
 (* without that second look on the failure path (the code before the fix) the statement is false: the
    schedule below - reproduced on the real engine by the scheduler, deviation D26 - strands (1, 0) *)
 Theorem C06_stranded_without_recheck_on_failure_refuted :
@@ -126,4 +144,12 @@ Print Assumptions C06_stranded_without_recheck_on_failure_refuted.
 Example C06_nonvacuous :
   let w := run Line [0; 1; 0; 1; 0; 0; 0; 0; 0; 0; 0; 0] (init (fun _ => 1)) in
   begun (w_log w) = [(0, 0); (1, 0)] /\ w_queue w = [] /\ w_holder w = None.
+Proof. vm_compute. repeat split. Qed.
+
+(* non-vacuity with a failure: sender 0's callbacks fail while (1, 0) is queued - it is dropped; (1, 1), put
+   afterwards, is processed: begun = [(0,0); (1,1)], a subsequence of the plans that is not a prefix of sender 1's *)
+Example C06_nonvacuous_failure :
+  let w := frun (fun e => Nat.eqb (fst e) 0) true [0; 0; 0; 1; 1; 0; 0; 0; 1; 1; 1; 1; 1; 1; 1]
+                (finit (fun t => if Nat.eqb t 0 then 1 else 2)) in
+  begun (fw_log w) = [(0, 0); (1, 1)] /\ fw_queue w = [] /\ fw_holder w = None.
 Proof. vm_compute. repeat split. Qed.
